@@ -197,6 +197,15 @@ func perturb(rt *rapid.T, t *Target, w wm.W) (wm.W, string) {
 						n.Pairs = append([]wm.Pair{}, cur.Pairs[:len(cur.Pairs)-1]...)
 						return rebuild(n)
 					}})
+					// same value under another key
+					if kk := p.WireKind(r.Key); kk != wm.KStruct && kk != wm.KList && kk != wm.KSet && kk != wm.KMap {
+						pts = append(pts, point{nested + "map-key-change", func() wm.W {
+							n := cur
+							n.Pairs = append([]wm.Pair{}, cur.Pairs...)
+							n.Pairs[0] = wm.Pair{K: changeLeaf(cur.Pairs[0].K), V: cur.Pairs[0].V}
+							return rebuild(n)
+						}})
+					}
 				}
 				for i := range cur.Pairs {
 					i := i
@@ -295,6 +304,11 @@ func changeLeaf(w wm.W) wm.W {
 			n.I = 0
 		}
 	case wm.KDouble:
+		if w.F == 0 || w.F == 0x8000000000000000 {
+			// +0 <-> -0: equal as doubles, different bit patterns
+			n.F = w.F ^ 0x8000000000000000
+			return n
+		}
 		n.F = w.F ^ 0x0008000000000000
 		if wm.HasNaN(n) {
 			n.F = 0x3ff0000000000000
